@@ -1,6 +1,6 @@
 import Gen.Rules
 import Model.Rules
-import Bridge.Symbolic
+import Bridge.Basic
 /-!
   Bridge for the constructor guards of `pydsdl/_serializable` (`Gen/Rules.lean`, rewritten from the working tree of /repo
   on every run): the `if …: raise` checks of `PrimitiveType`, `SignedIntegerType`, `VoidType`, `ArrayType`, `UnionType`
